@@ -21,15 +21,18 @@
 
 size_t libwifi_add_action_detail(struct libwifi_action_detail *detail, const unsigned char *data,
                                  size_t data_len) {
+    // Keep the existing detail when the allocation fails
+    char *buf = NULL;
     if (detail->detail_length != 0) {
-        detail->detail = realloc(detail->detail, data_len + detail->detail_length);
+        buf = realloc(detail->detail, data_len + detail->detail_length);
     } else {
-        detail->detail = malloc(data_len);
+        buf = malloc(data_len);
     }
 
-    if (detail->detail == NULL) {
+    if (buf == NULL) {
         return -EINVAL;
     }
+    detail->detail = buf;
 
     memcpy(detail->detail + detail->detail_length, data, data_len);
     detail->detail_length += data_len;
